@@ -57,6 +57,8 @@ pub struct Ir {
     pub seq_count: usize,
     /// full path of every label name: label -> "knot.label" / "knot.stitch.label"
     pub label_paths: BTreeMap<String, String>,
+    /// full path of a labelled gather -> where a divert to it continues
+    pub label_entries: BTreeMap<String, Label>,
 }
 
 /// the end of a content line: whitespace after the last word is not part of the text
@@ -174,6 +176,9 @@ impl<'a> Fl<'a> {
                     if let Some(l) = label {
                         let p = format!("{}.{}", self.scope_path(), l);
                         self.ir.label_paths.insert(l.clone(), p.clone());
+                        let entry = self.new_label();
+                        self.place(entry);
+                        self.ir.label_entries.insert(p.clone(), entry);
                         self.emit(Ins::Count(p));
                     }
                     if !xs.is_empty() {
